@@ -28,6 +28,7 @@ CONSTANTS BoundSet,     \* candidate boundaries (integers, HALF units: -3 is the
           MaxObs,       \* observations per histogram
           DEV_FirstBoundDroppedWhenNotPositive,  \* codegen: no bucket for buckets[0] unless buckets[0] > 0
           DEV_NaNInNoBucket,                     \* Observe: NaN <= Max is false for every bucket, +Inf included
+          WithReload,   \* the program is reloaded once with another boundary list (see Reload)
           EmitCases
 
 VARIABLES decl,      \* the declared boundaries, strictly increasing (half units)
@@ -37,8 +38,10 @@ VARIABLES decl,      \* the declared boundaries, strictly increasing (half units
           count,     \* d.Count
           sum,       \* d.Sum
           obs,       \* the values observed so far, in order
-          hist       \* bucket counts, Count and Sum after each observation (for replay)
-vars == <<decl, pc, ranges, buckets, count, sum, obs, hist>>
+          hist,      \* bucket counts, Count and Sum after each observation (for replay)
+          decl2,     \* the boundary list of the reloaded source, <<>> before the reload
+          at         \* number of observations made before the reload
+vars == <<decl, pc, ranges, buckets, count, sum, obs, hist, decl2, at>>
 
 -----------------------------------------------------------------------------
 (* IEEE-754 as far as Observe needs it *)
@@ -72,6 +75,7 @@ ValuesFor(d) == UNION {{Half(d[k]) - 1, Half(d[k]), Half(d[k]) + 1} : k \in DOMA
 Init == /\ decl \in Decls
         /\ pc = "declared"
         /\ ranges = <<>> /\ buckets = <<>> /\ count = 0 /\ sum = 0 /\ obs = <<>> /\ hist = <<>>
+        /\ decl2 = <<>> /\ at = 0
 
 -----------------------------------------------------------------------------
 (* codegen.go, VarDecl for a histogram:
@@ -98,7 +102,7 @@ Compile == /\ pc = "declared"
            /\ ranges' = CodegenRanges(decl)
            /\ buckets' = MakeBuckets(CodegenRanges(decl))
            /\ pc' = "ready"
-           /\ UNCHANGED <<decl, count, sum, obs, hist>>
+           /\ UNCHANGED <<decl, count, sum, obs, hist, decl2, at>>
 
 \* buckets.go Observe: for i, b := range d.Buckets { if v <= b.Range.Max { d.Buckets[i].Count++; break } }
 \* position of the bucket that takes v, 0 if none does
@@ -117,9 +121,22 @@ Observe(v) ==
   /\ sum' = Add(sum, v)          \* d.Sum += v
   /\ obs' = Append(obs, v)
   /\ hist' = Append(hist, [n |-> [k \in DOMAIN buckets' |-> buckets'[k].n], count |-> count', sum |-> sum'])
-  /\ UNCHANGED <<decl, pc, ranges>>
+  /\ UNCHANGED <<decl, pc, ranges, decl2, at>>
 
-Next == Compile \/ \E v \in ValuesFor(decl) : Observe(v)
+\* The program is reloaded with an edited boundary list: the freshly compiled metric has the new ranges, and
+\* Store.Add hands it the label values of the metric it replaces - the DATUM, made with the old list, lives on
+\* (reload preserves state, C14).  `decl` stays the list the datum was made with: that is the declaration the
+\* statement's bounds refer to; what must survive the reload untouched is everything counted so far.
+Reload(d2) ==
+  /\ WithReload /\ pc = "ready" /\ decl2 = <<>> /\ d2 # decl /\ Len(d2) = Len(decl)
+  /\ Len(obs) >= 1 /\ Len(obs) < MaxObs      \* the datum exists (the first observation made it); more is to come
+  /\ decl2' = d2 /\ at' = Len(obs)
+  /\ ranges' = CodegenRanges(d2)
+  /\ UNCHANGED <<decl, pc, buckets, count, sum, obs, hist>>
+
+Next == \/ Compile
+        \/ \E v \in ValuesFor(decl) \cup (IF decl2 = <<>> THEN {} ELSE ValuesFor(decl2)) : Observe(v)
+        \/ \E d2 \in Decls : Reload(d2)
 Spec == Init /\ [][Next]_vars
 
 -----------------------------------------------------------------------------
@@ -179,8 +196,8 @@ CumOK == pc = "ready" =>
 
 -----------------------------------------------------------------------------
 (* emission (direction A): every maximal behaviour *)
-Emit == (EmitCases /\ Len(obs) = MaxObs) =>
-          PrintT(<<"CASE", ToJson([decl |-> decl, obs |-> obs,
+Emit == (EmitCases /\ Len(obs) = MaxObs /\ (WithReload => decl2 # <<>>)) =>
+          PrintT(<<"CASE", ToJson([decl |-> decl, obs |-> obs, reload |-> [at |-> at, decl2 |-> decl2],
                                    maxes |-> [k \in DOMAIN buckets |-> buckets[k].max],
                                    mins |-> [k \in DOMAIN ranges |-> ranges[k].min],
                                    steps |-> hist,
